@@ -96,7 +96,7 @@ def _success_statuses(fn):
         if isinstance(n, ast.If):
             # only returns in the `if` body count
             returns_parsed = any(isinstance(s, ast.Return) and s.value is not None and any(
-                isinstance(m, ast.Attribute) and m.attr == "parse_response" for m in ast.walk(s.value))
+                isinstance(m, ast.Attribute) and m.attr == "parse_response" for m in ast.walk(_resolve(s.value, al)))
                 for b in n.body for s in ast.walk(b))
             if not returns_parsed:
                 continue
@@ -127,7 +127,7 @@ def _success_statuses(fn):
     # a return of the parsed response outside any such `if` means every status is accepted
     for s in ast.walk(t):
         if isinstance(s, ast.Return) and s.value is not None and any(
-                isinstance(m, ast.Attribute) and m.attr == "parse_response" for m in ast.walk(s.value)):
+                isinstance(m, ast.Attribute) and m.attr == "parse_response" for m in ast.walk(_resolve(s.value, al))):
             inside = False
             for n in ast.walk(t):
                 if isinstance(n, ast.If) and any(s is x for b in n.body for x in ast.walk(b)):
@@ -279,6 +279,97 @@ def _error_body_unused(fn):
     return True
 
 
+def _all_defs(tree, name):
+    """Every `def name` anywhere in a module (both branches of version tests: a lenient decoder in either is a finding)."""
+    return [n for n in ast.walk(tree) if isinstance(n, ast.FunctionDef) and n.name == name] if tree is not None else []
+
+
+def _lenient_decodes(fn):
+    """The bytes->text conversions of a function that name an error handler other than "strict" (or one that is not a
+    literal): `x.decode(enc, errors)`, `str(x, enc, errors)`, `codecs.decode(x, enc, errors)`, `errors=` given by keyword
+    to any call.  -> (number of conversions seen, number of lenient ones)."""
+    seen = lenient = 0
+    for c in ast.walk(fn):
+        if not isinstance(c, ast.Call):
+            continue
+        f = c.func
+        err = None
+        conv = False
+        if isinstance(f, ast.Attribute) and f.attr == "decode":
+            conv = True
+            # bytes.decode(encoding, errors) / codecs.decode(obj, encoding, errors)
+            pos = 2 if (isinstance(f.value, ast.Name) and f.value.id == "codecs") else 1
+            if len(c.args) > pos:
+                err = c.args[pos]
+        elif isinstance(f, ast.Name) and f.id == "str" and len(c.args) >= 2:
+            conv = True
+            if len(c.args) > 2:
+                err = c.args[2]
+        elif isinstance(f, ast.Name) and f.id == "str" and any(k.arg in ("encoding", "errors") for k in c.keywords):
+            conv = True
+        for k in c.keywords:
+            if k.arg == "errors":
+                err, conv = k.value, True
+            elif k.arg is None:
+                err, conv = k.value, True   # **kwargs: not a literal
+        if conv:
+            seen += 1
+            if err is not None and not (isinstance(err, ast.Constant) and err.value == "strict"):
+                lenient += 1
+    return seen, lenient
+
+
+def _reply_decoding_strict(src):
+    """The bytes of a 200 reply become text by STRICT decoding only: JSONTarget.close hands them to utils.from_bytes
+    and/or decodes them itself, and no conversion in either names an error handler (`errors="replace"`/"ignore"/…).
+    None when JSONTarget.close is not found or converts nothing at all."""
+    close = src.func("jsonrpc", "JSONTarget.close")
+    if close is None:
+        return None
+    seen, lenient = _lenient_decodes(close)
+    uses_fb = any(isinstance(c, ast.Call) and ((isinstance(c.func, ast.Attribute) and c.func.attr == "from_bytes")
+                                               or (isinstance(c.func, ast.Name) and c.func.id == "from_bytes"))
+                  for c in ast.walk(close))
+    if uses_fb:
+        defs = _all_defs(src.module("utils"), "from_bytes")
+        if not defs:
+            return None
+        for d in defs:
+            s2, l2 = _lenient_decodes(d)
+            seen += s2
+            lenient += l2
+    if seen == 0:
+        return None
+    return lenient == 0
+
+
+def _success_returns_parsed(fn):
+    """The success branch of single_request (the `if` on the status inside the exchange `try`) hands back what
+    parse_response returned and nothing else: every `return` in it returns the call `…parse_response(<response>)` or a
+    name whose single assignment is that call, there is at least one, and the branch holds no `raise` — no test on the
+    parsed text (its length, its first character, …) can turn a healthy reply into an error or another value."""
+    al = _aliases(fn)
+    t = _exchange_try(fn)
+    if t is None:
+        return None
+
+    def is_parse(x):
+        x = _resolve(x, al)
+        return isinstance(x, ast.Call) and isinstance(x.func, ast.Attribute) and x.func.attr == "parse_response"
+
+    branches = [n for n in ast.walk(t) if isinstance(n, ast.If) and any(
+        isinstance(m, ast.Attribute) and m.attr == "parse_response" for b in n.body for m in ast.walk(b))]
+    if not branches:
+        return None
+    ok = True
+    for n in branches[:1]:
+        rets = [m for b in n.body for m in ast.walk(b) if isinstance(m, ast.Return)]
+        raises = [m for b in n.body for m in ast.walk(b) if isinstance(m, ast.Raise)]
+        if not rets or raises or not all(r.value is not None and is_parse(r.value) for r in rets):
+            ok = False
+    return ok
+
+
 def _raises_transport_error(fn):
     """After the exchange, the function ends by raising TransportError(host + handler, <response>.status, …)."""
     al = _aliases(fn)
@@ -347,7 +438,16 @@ def facts(src):
     f = _raises_transport_error(sr) if sr is not None else None
     g = _closes_response_unread(sr) if sr is not None else None
     h = _error_body_unused(sr) if sr is not None else None
+    i = _reply_decoding_strict(src)
+    j = _success_returns_parsed(sr) if sr is not None else None
     return [
+        Fact("replyDecodingStrict", "Bool", None if i is None else lean_bool(i), ["C19"],
+             "the bytes of a 200 reply become text by strict decoding only (JSONTarget.close / utils.from_bytes name no error "
+             "handler such as errors=\"replace\"): a body that is not valid UTF-8 raises instead of yielding a made-up value",
+             json_value=i),
+        Fact("singleRequestSuccessReturnsParsed", "Bool", None if j is None else lean_bool(j), ["C19"],
+             "the 200 branch of single_request returns what parse_response returned, unconditionally: no raise and no other "
+             "return in it (no test on the parsed text can refuse or replace a healthy reply)", json_value=j),
         Fact("singleRequestClosesOnError", "Bool", None if a is None else lean_bool(a), ["C19"],
              "single_request closes the cached connection and re-raises on any exception of the exchange (send, getresponse, parse)",
              json_value=a),
